@@ -166,4 +166,18 @@ MUTANTS = [
             ("ractor/src/rpc.rs", "                Err(_send_err) => CallResult::SenderError,\n            }\n        })\n    }\n}", "                Err(_send_err) => CallResult::SenderError,\n            }\n        };\n        sent?;\n        Ok(__r)\n    }\n}")]},
  {"name": "silent-asyncstd-config-does-not-build", "props": ["C03"], "expect": "silent",
   "edits": [("ractor/src/concurrency/async_std_primitives.rs", "pub fn interval(dur: Duration) -> Interval {", "pub fn interval(dur: Duration) -> Interval { let _x: u8 = \"not a number\";")]},
+ {"name": "silent-status-gates-equivalent-forms", "props": ["C05", "C07", "C02", "C06", "C10"], "expect": "silent",
+  "edits": [("ractor/src/actor/supervision.rs", "        if child.get_status() >= super::actor_cell::ActorStatus::Draining\n            || supervisor.get_status() >= super::actor_cell::ActorStatus::Draining",
+             "        if child.get_status() > super::actor_cell::ActorStatus::Upgrading\n            || !(supervisor.get_status() < super::actor_cell::ActorStatus::Draining)"),
+            ("ractor/src/actor/actor_properties.rs", "        if status >= ActorStatus::Draining {\n            // if currently draining", "        if status > ActorStatus::Upgrading {\n            // if currently draining"),
+            ("ractor/src/actor/actor_cell.rs", "        if status >= ActorStatus::Stopping && previous_status < ActorStatus::Stopping {", "        if status > ActorStatus::Draining && previous_status <= ActorStatus::Draining {"),
+            ("ractor/src/actor/actor_cell.rs", "            if actor.get_status() <= ActorStatus::Draining {", "            if actor.get_status() < ActorStatus::Stopping {")]},
+ {"name": "c05-revert-f3-terminate-skips-draining", "props": ["C05"], "rules": ["C05.R6"],
+  "edits": [("ractor/src/actor/actor_cell.rs", "            if actor.get_status() <= ActorStatus::Draining {", "            if actor.get_status() <= ActorStatus::Upgrading {")]},
+ {"name": "c10-revert-f2-proxy-unregisters-name", "props": ["C10"], "rules": ["C10.R6"],
+  "edits": [("ractor/src/actor/actor_cell.rs", "            if self.get_id().is_local() {\n                if let Some(name) = self.get_name() {", "            if true {\n                if let Some(name) = self.get_name() {")]},
+ {"name": "c05-link-admits-draining-supervisor", "props": ["C05"], "rules": ["C05.R4"],
+  "edits": [("ractor/src/actor/supervision.rs", "            || supervisor.get_status() >= super::actor_cell::ActorStatus::Draining", "            || supervisor.get_status() >= super::actor_cell::ActorStatus::Stopping")]},
+ {"name": "c07-send-gate-admits-draining", "props": ["C07"], "rules": ["C07.R5"],
+  "edits": [("ractor/src/actor/actor_properties.rs", "        if status >= ActorStatus::Draining {\n            // if currently draining", "        if status >= ActorStatus::Stopping {\n            // if currently draining")]},
 ]
